@@ -83,7 +83,7 @@ class Checker:
             file = file or fi.module.relpath
             function = function or fi.qualname.split(":", 1)[1]
         if line is None:
-            line = getattr(stmt, "lineno", 0) if isinstance(stmt, ast.AST) else (fi.node.lineno if fi is not None else 0)
+            line = getattr(stmt, "_orig_lineno", getattr(stmt, "lineno", 0)) if isinstance(stmt, ast.AST) else (getattr(fi.node, "_orig_lineno", fi.node.lineno) if fi is not None else 0)
         o = Obligation(rule, file or "?", function or "?", norm_stmt(stmt), verdict, detail, line, path, nontrivial)
         self.obs.append(o)
         return o
